@@ -31,6 +31,8 @@ var c20Auth = []string{
 	"<absent>", "Basic " + b64("u:p"), "Basic " + b64("u:wrong"), "Basic " + b64("nobody:p"), "Basic " + b64("u:"), "Basic " + b64(":p"),
 	"Basic " + b64("nocolon"), "Basic", "Basic ", "Basic !!!", "basic " + b64("u:p"), "BASIC " + b64("v:q"), "Bearer x", "Basic  " + b64("u:p"),
 	"Basic " + b64("u:p:x"), "Basic " + b64("v:q"), "Basic " + b64("u:p") + "=", " Basic " + b64("u:p"), "Basic " + b64("U:p"), "",
+	// unknown / empty users with empty and other passwords (the full user x password square)
+	"Basic " + b64("nobody:"), "Basic " + b64(":"), "Basic " + b64("v:"), "Basic " + b64("v:p"), "Basic " + b64("nobody:q"), "Basic " + b64("u:q"), "Basic " + b64(":q"),
 }
 
 // independent reading of "well-formed Basic credentials"
@@ -305,7 +307,7 @@ func c20Run(c c20Case, st *fw.Stats) []fw.Viol {
 var c20Spec = fw.Spec[c20Case]{
 	ID:    "C20",
 	Level: "model_checking",
-	Rule: "complete decision tables: HTTPBasicAuth: 6 account maps (nil, empty, one user, empty password, two users, password containing ':') x 20 Authorization values (absent, valid, wrong password, unknown user, empty user / password, no colon, bare scheme, bad base64, scheme in other case, other scheme, double space, padding, leading space, case-changed user, empty) x 3 placements (route, global, group middleware); " +
+	Rule: "complete decision tables: HTTPBasicAuth: 6 account maps (nil, empty, one user, empty password, two users, password containing ':') x 27 Authorization values (incl. the full square of known / unknown / empty users x matching / other / empty passwords) (absent, valid, wrong password, unknown user, empty user / password, no colon, bare scheme, bad base64, scheme in other case, other scheme, double space, padding, leading space, case-changed user, empty) x 3 placements (route, global, group middleware); " +
 		"HTTPMethodOverrideHandler: 10 request methods x 13 override values x 6 carriers (none, header, query, body, header+query agreeing, header+body disagreeing - the last for totality only); WrapHTTPHandlers: lists of 1..4 distinguishable wrappers (+ the override gate in the list); WrapHTTPHandler / WrapHTTPHandlerFunc at every subset of positions of chains n<=4; every row is non-trivial",
 	Assume: []string{"'well-formed Basic credentials' = scheme Basic (any case), one space, valid base64, a colon in the decoded text", "when both override carriers disagree the statement does not say which wins; those rows are executed but not asserted"},
 	Bounds: func(tier string) map[string]any {
